@@ -5,6 +5,7 @@
 import TaRs.Lemmas.Core.EfficiencyRatio
 import TaRs.Gen.EfficiencyRatio
 import TaRs.Lemmas.RsLemmas
+import TaRs.Lemmas.Total.EfficiencyRatio
 namespace TaRs.Gen.EfficiencyRatio
 open TaRs TaRs.Rs
 
@@ -78,16 +79,6 @@ theorem first_volatility_total (s : EfficiencyRatio F) (x : F) (h : WF s) :
     simp (disch := first | omega | (simp only [Array.size_setIfInBounds]; omega))
       [index_eq, slice_eq, c1, c2]
 
-/-- `next` never panics on a well-formed state, keeps it well-formed and keeps the period.
-    (The two `for` loops are pure folds; only the two slice ranges matter.) -/
-theorem next_total (s : EfficiencyRatio F) (x : F) (h : WF s) :
-    ∃ r, s.next x = some r ∧ WF r.1 ∧ r.1.period = s.period := by
-  obtain ⟨f, vol, hf, hv⟩ := first_volatility_total s x h
-  refine ⟨_, next_guard s x h f vol hf hv, ?_, rfl⟩
-  obtain ⟨hp, hs, hsz, hi, hc, hfl⟩ := h
-  constructor <;> simp only [step] <;> (try simp only [Array.size_setIfInBounds]) <;>
-    (try split) <;> (try split) <;> (try intro) <;> omega
-
 /-- the `fill` clause of `WF` is not decoration: on a (deserialised) state whose cursor is ahead
     of the count while the window is still filling, `next` panics in
     `&self.deque[self.index..self.count]`. -/
@@ -99,10 +90,5 @@ theorem next_none_of_gap (s : EfficiencyRatio F) (x : F)
   try simp only [gen_helper]
   rs_exec_prune
   all_goals simp (disch := omega) only [slice_none, Option.bind_none]
-
-theorem nextBar_eq (s : EfficiencyRatio F) (b : Bar F) : s.nextBar b = s.next b.close := by
-  unfold nextBar
-  try simp only [gen_helper]
-  cases h : s.next b.close <;> simp
 
 end TaRs.Gen.EfficiencyRatio
